@@ -112,7 +112,10 @@ def data(seed):
     return X, y, xnew
 
 
-def liesel_model(seed):
+def liesel_model(seed, variant=None):
+    """variant (optional dict): weakdist = a weak variable (sigma squared) that carries its own distribution; auto_off = the user's model has
+    auto_update switched off when the interface is made; alias = interface through the deprecated lsl.GooseModel"""
+    variant = variant or {}
     X, y, xnew = data(seed)
     beta = lsl.param(np.zeros(2, dtype=np.float32), lsl.Dist(tfd.Normal, loc=np.float32(0.0), scale=np.float32(10.0)), name="beta")
     sigma = lsl.param(np.float32(1.0), lsl.Dist(tfd.LogNormal, loc=np.float32(0.0), scale=np.float32(1.0)), name="sigma")
@@ -121,13 +124,28 @@ def liesel_model(seed):
     mu = lsl.Var(lsl.Calc(lambda X, b, s: X @ b + s, lsl.obs(X, name="X"), beta, shift), name="mu")
     pred = lsl.Var(lsl.Calc(lambda b, s: jnp.dot(xnew, b) + s, beta, shift), name="pred")          # feeds no distribution
     yv = lsl.obs(y, lsl.Dist(tfd.Normal, loc=mu, scale=sigma), name="y")
-    model = lsl.GraphBuilder().add(yv, pred).build_model()
+    extra = []
+    if variant.get("weakdist"):
+        extra.append(lsl.Var(lsl.Calc(lambda s: jnp.asarray(s) ** 2, sigma), lsl.Dist(tfd.HalfNormal, scale=np.float32(5.0)), name="sigma2"))
+    model = lsl.GraphBuilder().add(yv, pred, *extra).build_model()
+    if variant.get("auto_off"):
+        model.auto_update = False
     params = ["beta", "sigma_transformed", "shift"]
     derived = ["mu", "sigma", "pred", "_model_log_prob", "_model_log_lik", "_model_log_prior"]
     return model, params, derived
 
 
-def recompute(seed, p):
+def make_iface(model, variant=None):
+    if (variant or {}).get("alias"):
+        import warnings
+
+        with warnings.catch_warnings():
+            warnings.simplefilter("ignore")
+            return lsl.GooseModel(model)
+    return gs.LieselInterface(model)
+
+
+def recompute(seed, p, variant=None):
     """float64 derived quantities from parameter values p = {beta, sigma_transformed, shift}"""
     X, y, xnew = (a.astype(np.float64) for a in data(seed))
     b, t, s = np.asarray(p["beta"], np.float64), float(p["sigma_transformed"]), float(p["shift"])
@@ -135,7 +153,9 @@ def recompute(seed, p):
     sig = math.exp(t)
     ll = float(np.sum(sps.norm.logpdf(y, mu, sig)))
     lpr = float(np.sum(sps.norm.logpdf(b, 0, 10.0)) + sps.norm.logpdf(t, 0, 1.0) + sps.norm.logpdf(s, 0, 2.0))
-    return {"mu": mu, "sigma": sig, "pred": float(xnew @ b + s), "_model_log_lik": ll, "_model_log_prior": lpr, "_model_log_prob": ll + lpr}
+    # a weak variable with a distribution is neither parameter nor observed: its log-density enters the model log-prob only
+    extra = float(sps.halfnorm.logpdf(sig ** 2, scale=5.0)) if (variant or {}).get("weakdist") else 0.0
+    return {"mu": mu, "sigma": sig, "pred": float(xnew @ b + s), "_model_log_lik": ll, "_model_log_prior": lpr, "_model_log_prob": ll + lpr + extra}
 
 
 def dict_model(seed):
@@ -164,7 +184,8 @@ def gen():
         ks = [{"keys": grp, "kind": draw(st.sampled_from(["rw", "iwls", "nuts", "hmc", "mh", "gibbs"])), "step": draw(st.sampled_from([0.3, 0.8, 2.0])), "id": idents[i]}
               for i, grp in enumerate(groups)]
         return {"liesel": draw(st.sampled_from([True, True, False])), "kernels": ks, "iters": draw(st.integers(12, 40)), "seed": draw(st.integers(0, 10**6)),
-                "epoch": draw(st.sampled_from([1, 3, 4]))}
+                "epoch": draw(st.sampled_from([1, 3, 4])),
+                "variant": {"weakdist": draw(st.booleans()), "auto_off": draw(st.booleans()), "alias": draw(st.integers(0, 2)) == 0}}
 
     return g()
 
@@ -198,8 +219,8 @@ def make_inner(k, iface):
 def oracle(c):
     det = lambda: f"{c}"  # noqa: E731
     if c["liesel"]:
-        model, params, derived = liesel_model(c["seed"])
-        iface = gs.LieselInterface(model)
+        model, params, derived = liesel_model(c["seed"], c.get("variant"))
+        iface = make_iface(model, c.get("variant"))
         st0 = model.state
     else:
         iface, params, derived = dict_model(c["seed"])
@@ -251,7 +272,7 @@ def oracle(c):
                 outcomes.append(changed)
                 # coherence of derived quantities after this transition
                 if derived:
-                    exp = recompute(c["seed"], post)
+                    exp = recompute(c["seed"], post, c.get("variant"))
                     for k in derived:
                         a, b = np.asarray(post[k], dtype=np.float64), np.asarray(exp[k], dtype=np.float64)
                         tol = 3e-5 * (1 + np.abs(b)) + (3e-5 * (abs(exp["_model_log_lik"]) + abs(exp["_model_log_prior"]) + 50) if k.startswith("_model") else 0)
@@ -263,7 +284,8 @@ def oracle(c):
                 require(np.array_equal(np.asarray(pos[k])[ch, t + 1], prev_post[k], equal_nan=True), "stored-sample-is-not-state-after-all-kernels", lambda: f"chain {ch} it {t} {k}; {det()}")
             if any(outcomes) and not all(outcomes):
                 mixed = True
-    return {"nt": bool(mixed), "cls": ["liesel" if c["liesel"] else "dict", "+".join(k["kind"] for k in c["kernels"]), "sorted-ids" if ids == sorted(ids) else "unsorted-ids"],
+    vtag = "+".join(k for k, v in sorted((c.get("variant") or {}).items()) if v) or "plain"
+    return {"nt": bool(mixed), "cls": ["liesel" if c["liesel"] else "dict", ("variant:" + vtag) if c["liesel"] else "variant:n/a", "+".join(k["kind"] for k in c["kernels"]), "sorted-ids" if ids == sorted(ids) else "unsorted-ids"],
             "weight": C * T * len(ids)}
 
 
